@@ -1,17 +1,148 @@
 import S3V.Thm.FsStoreComplete
 /-!
-# C18: `upload_part_copy` of a whole source object refines the store
+# C18: `upload_part_copy` (whole source or an admissible `bytes=first-last` range) refines the store
 -/
 namespace S3V.FsStore
 open S3V.StoreSpec
 
+/-! ## the two readers of `x-amz-copy-source-range` agree on what the store accepts -/
+
+theorem digitsVal_all_digits : ∀ (s : Bytes) (acc v : Nat), digitsVal s acc = some v → ∀ c ∈ s, isDigit c = true := by
+  intro s
+  induction s with
+  | nil => intro _ _ _ c hc; simp at hc
+  | cons x xs ih =>
+    intro acc v h c hc
+    unfold digitsVal at h
+    by_cases hx : isDigit x = true
+    · simp only [hx, if_true] at h
+      simp only [List.mem_cons] at hc
+      rcases hc with hc | hc
+      · subst hc; exact hx
+      · exact ih _ _ h c hc
+    · simp [hx] at h
+
+theorem isDigit_ne_dash {c : UInt8} (h : isDigit c = true) : c ≠ 45 := by
+  intro e; subst e; simp [isDigit] at h
+
+theorem isDigit_ne_plus {c : UInt8} (h : isDigit c = true) : c ≠ 43 := by
+  intro e; subst e; simp [isDigit] at h
+
+theorem splitOnByte_no (d : UInt8) : ∀ (s : Bytes), d ∉ s → splitOnByte d s = [s] := by
+  intro s
+  induction s with
+  | nil => intro _; rfl
+  | cons c cs ih =>
+    intro h
+    have hc : c ≠ d := fun e => h (by simp [e])
+    have hcs : d ∉ cs := fun hm => h (List.mem_cons_of_mem _ hm)
+    unfold splitOnByte
+    simp [hc, ih hcs]
+
+theorem splitOnByte_one (d : UInt8) : ∀ (a z : Bytes), d ∉ a → d ∉ z → splitOnByte d (a ++ d :: z) = [a, z] := by
+  intro a
+  induction a with
+  | nil => intro z _ hz; simp [splitOnByte, splitOnByte_no d z hz]
+  | cons c cs ih =>
+    intro z ha hz
+    have hc : c ≠ d := fun e => ha (by simp [e])
+    have hcs : d ∉ cs := fun hm => ha (List.mem_cons_of_mem _ hm)
+    simp only [List.cons_append]
+    unfold splitOnByte
+    simp [hc, ih z hcs hz]
+
+theorem parseU64_digits {s : Bytes} {v : Nat} (hne : s ≠ []) (h : digitsVal s 0 = some v) (hv : v < u64Mod) :
+    parseU64 s = some v := by
+  have hall := digitsVal_all_digits s 0 v h
+  have hstrip : stripPlus s = s := by
+    cases s with
+    | nil => rfl
+    | cons x xs =>
+      have hx : x ≠ 43 := isDigit_ne_plus (hall x (by simp))
+      unfold stripPlus
+      split
+      · rename_i r heq; simp at heq; exact absurd heq.1 hx
+      · rfl
+  unfold parseU64
+  simp [hstrip, hne, h, hv]
+
+theorem drop_takeWhile_length {α : Type} (p : α → Bool) : ∀ (l : List α),
+    l.drop (l.takeWhile p).length = l.dropWhile p := by
+  intro l
+  induction l with
+  | nil => rfl
+  | cons x xs ih =>
+    by_cases hx : p x = true
+    · simp [List.takeWhile_cons, List.dropWhile_cons, hx, ih]
+    · simp [List.takeWhile_cons, List.dropWhile_cons, hx]
+
+/-- a copy-source-range the store accepts is read by the backend's hand-written parser as the same positions -/
+theorem copyRange_agree {r : Bytes} {len st en : Nat} (hlen : len < u64Mod)
+    (h : StoreSpec.copyRange r len = some (st, en)) :
+    ∃ l, en = l + 1 ∧ st ≤ l ∧ l < len ∧ FsStore.copyRange (some r) len = some (st, l) := by
+  unfold StoreSpec.copyRange at h
+  by_cases h6 : r.take 6 ≠ StoreSpec.sBytesEq
+  · simp [h6] at h
+  · simp only [h6, if_false] at h
+    generalize hbody : r.drop 6 = body at h
+    generalize ha : body.takeWhile (fun x => decide (x ≠ 45)) = a at h
+    by_cases hcond : a = [] ∨ ((body.drop a.length).drop 1) = [] ∨ (body.drop a.length).head? ≠ some 45
+    · rw [if_pos hcond] at h; simp at h
+    · rw [if_neg hcond] at h
+      have hcond' := not_or.mp hcond
+      have hcond2 := not_or.mp hcond'.2
+      cases hf : digitsVal a 0 with
+      | none => rw [hf] at h; simp at h
+      | some f =>
+        cases hl : digitsVal ((body.drop a.length).drop 1) 0 with
+        | none => rw [hf, hl] at h; simp at h
+        | some l =>
+          rw [hf, hl] at h
+          simp only at h
+          by_cases hb : f ≤ l ∧ l < len
+          · simp only [hb, and_self, if_true, Option.some.injEq, Prod.mk.injEq] at h
+            obtain ⟨rfl, rfl⟩ := h
+            refine ⟨l, rfl, hb.1, hb.2, ?_⟩
+            -- the body is `a - z`
+            have hhead : (body.drop a.length).head? = some 45 := by
+              have := hcond2.2; simpa using this
+            have hz : body.drop a.length = 45 :: (body.drop a.length).drop 1 := by
+              cases hd : body.drop a.length with
+              | nil => rw [hd] at hhead; simp at hhead
+              | cons y ys => rw [hd] at hhead; simp at hhead; subst hhead; rfl
+            have hsplit : body = a ++ 45 :: (body.drop a.length).drop 1 := by
+              have h1 : body = body.takeWhile (fun x => decide (x ≠ 45)) ++ body.dropWhile (fun x => decide (x ≠ 45)) :=
+                (List.takeWhile_append_dropWhile).symm
+              have h2 : body.drop a.length = body.dropWhile (fun x => decide (x ≠ 45)) := by
+                rw [← ha]
+                exact drop_takeWhile_length _ body
+              rw [ha] at h1
+              rw [← h2] at h1
+              rw [hz] at h1
+              exact h1
+            have hda : (45 : UInt8) ∉ a := fun hm => isDigit_ne_dash (digitsVal_all_digits a 0 f hf 45 hm) rfl
+            have hdz : (45 : UInt8) ∉ (body.drop a.length).drop 1 := fun hm =>
+              isDigit_ne_dash (digitsVal_all_digits _ 0 l hl 45 hm) rfl
+            have h6' : r.take 6 = FsStore.sBytesEq := by
+              have : ¬ r.take 6 ≠ StoreSpec.sBytesEq := h6
+              have e : StoreSpec.sBytesEq = FsStore.sBytesEq := rfl
+              rw [← e]
+              simpa using this
+            have hfl : f < u64Mod := by omega
+            have hll : l < u64Mod := by omega
+            unfold FsStore.copyRange
+            simp only [h6', ne_eq, not_true_eq_false, if_false, hbody]
+            rw [hsplit, splitOnByte_one 45 a _ hda hdz]
+            simp only [parseU64_digits hcond'.1 hf hfl, hcond2.1, if_false, parseU64_digits hcond2.1 hl hll]
+          · simp [hb] at h
+
 /-- `upload_part_copy` comparable: part number within 1..10000 [else fs:part-number-not-validated], the upload exists for this
-    bucket and key [fs:unknown-upload-code, fs:upload-not-bound-to-key], the whole source is copied (no
-    `x-amz-copy-source-range`) [ranges: fs:part-copy-range-unchecked; not covered by this theorem], source names agree,
-    the source bucket exists [fs:missing-bucket-reported-as-missing-key], the source is not a directory and its size fits
-    `u64` -/
+    bucket and key [fs:unknown-upload-code, fs:upload-not-bound-to-key], source names agree, the source bucket exists
+    [fs:missing-bucket-reported-as-missing-key], the source is not a directory and its size fits `i64`; a
+    `x-amz-copy-source-range`, if given, is one the store accepts: `bytes=first-last` inside the source
+    [else fs:part-copy-range-unchecked] -/
 def UploadPartCopyOk (s : State) (b k : Bytes) (u : UploadRef) (n : Int) (sb sk : Bytes) (range : Option Bytes) : Prop :=
-  1 ≤ n ∧ n ≤ 10000 ∧ BoundUpload s u b k ∧ range = none ∧ NameOk sb ∧ CanonKey sk ∧
+  1 ≤ n ∧ n ≤ 10000 ∧ BoundUpload s u b k ∧ NameOk sb ∧ CanonKey sk ∧
   (bucketOk sb = true →
     match keyPath sk with
     | none => True
@@ -22,7 +153,18 @@ def UploadPartCopyOk (s : State) (b k : Bytes) (u : UploadRef) (n : Int) (sb sk 
         match st.node sp with
         | none => True
         | some .dir => False
-        | some (.file c) => c.length < u64Mod)
+        | some (.file c) =>
+          c.length ≤ i64Max ∧
+          match range with
+          | none => True
+          | some r => (StoreSpec.copyRange r c.length).isSome = true)
+
+theorem i64Max_lt_u64Mod : i64Max < u64Mod := by decide
+
+theorem wrap_len (l st : Nat) (h1 : l + 1 < 18446744073709551616) (h2 : st ≤ l) :
+    (l + 18446744073709551616 - st + 1) % 18446744073709551616 = l + 1 - st := by
+  have e : l + 18446744073709551616 - st + 1 = (l + 1 - st) + 18446744073709551616 := by omega
+  rw [e, Nat.add_mod_right, Nat.mod_eq_of_lt (by omega)]
 
 theorem copyWhole (c : Bytes) (h : c.length < u64Mod) :
     c.take (((c.length + u64Mod - 1) % u64Mod + u64Mod + 1) % u64Mod) = c := by
@@ -42,8 +184,7 @@ theorem uploadPartCopy_refines (H : Hashes) (dl : Nat) {s : State} (hi : Inv s) 
     abs (step H dl s (.uploadPartCopy who b k u n sb sk range)).1 =
       (StoreSpec.step H (abs s) (.uploadPartCopy who b k u n sb sk range)).1 ∧
     Inv (step H dl s (.uploadPartCopy who b k u n sb sk range)).1 := by
-  obtain ⟨h1, h2, hbound, hrange, hsname, ⟨_, hscanon⟩, hsrc⟩ := hg
-  subst hrange
+  obtain ⟨h1, h2, hbound, hsname, ⟨_, hscanon⟩, hsrc⟩ := hg
   have hnr : ¬ (n < 1 ∨ n > 10000) := by omega
   obtain ⟨id, ui, rfl, hl, hb, hk, hup⟩ := hbound.spec
   by_cases hown : ui.owner = who
@@ -80,18 +221,47 @@ theorem uploadPartCopy_refines (H : Hashes) (dl : Nat) {s : State} (hi : Inv s) 
               rw [hsn] at hslook hsrc
               simp only [Option.bind_some, nodeObj] at hslook
               simp only at hsrc
-              have hbody := copyWhole c hsrc
-              have hstep : step H dl s (.uploadPartCopy who b k (some id) n sb sk none) =
-                  ({ s with parts := alInsert (id, n) c s.parts }, .part (some (etagOf H c))) := by
-                have h0 : ¬ (0 > i64Max) := by decide
-                simp [step, State.verify, hl, hown, objPath, hsbd, hskp, hsnode, hsn, copyRange, h0, hbody]
-              have hspec : StoreSpec.step H (abs s) (.uploadPartCopy who b k (some id) n sb sk none) =
-                  ({ abs s with uploads := alInsert id (withPart (upOf s id ui) n c) (abs s).uploads },
-                    .part (some (etagOf H c))) := by
-                simp [StoreSpec.step, hnr, hup, hown', hsbo, hsko, hsabs, hslook, withPart]
-              rw [hstep, hspec]
-              obtain ⟨e1, e2⟩ := writePart_core (s' := { s with parts := alInsert (id, n) c s.parts }) hi hl rfl rfl rfl rfl rfl rfl rfl
-              exact ⟨rfl, e1, e2⟩
+              obtain ⟨hlen, hrng⟩ := hsrc
+              have hlen' : c.length < u64Mod := Nat.lt_of_le_of_lt hlen i64Max_lt_u64Mod
+              cases range with
+              | none =>
+                have hbody := copyWhole c hlen'
+                have hstep : step H dl s (.uploadPartCopy who b k (some id) n sb sk none) =
+                    ({ s with parts := alInsert (id, n) c s.parts }, .part (some (etagOf H c))) := by
+                  have h0 : ¬ (0 > i64Max) := by decide
+                  simp [step, State.verify, hl, hown, objPath, hsbd, hskp, hsnode, hsn, copyRange, h0, hbody]
+                have hspec : StoreSpec.step H (abs s) (.uploadPartCopy who b k (some id) n sb sk none) =
+                    ({ abs s with uploads := alInsert id (withPart (upOf s id ui) n c) (abs s).uploads },
+                      .part (some (etagOf H c))) := by
+                  simp [StoreSpec.step, hnr, hup, hown', hsbo, hsko, hsabs, hslook, withPart]
+                rw [hstep, hspec]
+                obtain ⟨e1, e2⟩ := writePart_core (s' := { s with parts := alInsert (id, n) c s.parts }) hi hl rfl rfl rfl rfl rfl rfl rfl
+                exact ⟨rfl, e1, e2⟩
+              | some r =>
+                simp only at hrng
+                cases hcr : StoreSpec.copyRange r c.length with
+                | none => rw [hcr] at hrng; simp at hrng
+                | some se =>
+                  obtain ⟨st, en⟩ := se
+                  obtain ⟨l, rfl, hstl, hll, hmodel⟩ := copyRange_agree hlen' hcr
+                  have hcl : (l + u64Mod - st + 1) % u64Mod = l + 1 - st := by
+                    have e : u64Mod = 18446744073709551616 := by decide
+                    have h0 : i64Max < u64Mod := i64Max_lt_u64Mod
+                    have h1 : l + 1 < u64Mod := by omega
+                    rw [e] at h1 ⊢
+                    exact wrap_len l st h1 hstl
+                  have hst : ¬ st > i64Max := by omega
+                  have hstep : step H dl s (.uploadPartCopy who b k (some id) n sb sk (some r)) =
+                      ({ s with parts := alInsert (id, n) (slice c st (l + 1)) s.parts },
+                        .part (some (etagOf H (slice c st (l + 1))))) := by
+                    simp [step, State.verify, hl, hown, objPath, hsbd, hskp, hsnode, hsn, hmodel, hcl, hst, slice]
+                  have hspec : StoreSpec.step H (abs s) (.uploadPartCopy who b k (some id) n sb sk (some r)) =
+                      ({ abs s with uploads := alInsert id (withPart (upOf s id ui) n (slice c st (l + 1))) (abs s).uploads },
+                        .part (some (etagOf H (slice c st (l + 1))))) := by
+                    simp [StoreSpec.step, hnr, hup, hown', hsbo, hsko, hsabs, hslook, withPart, hcr]
+                  rw [hstep, hspec]
+                  obtain ⟨e1, e2⟩ := writePart_core (s' := { s with parts := alInsert (id, n) (slice c st (l + 1)) s.parts }) hi hl rfl rfl rfl rfl rfl rfl rfl
+                  exact ⟨rfl, e1, e2⟩
     · simp [step, StoreSpec.step, State.verify, hl, hown, hnr, hup, hown', objPath, hsbd, hsbo, hi]
   · have hown' : (upOf s id ui).owner ≠ who := hown
     simp [step, StoreSpec.step, State.verify, hl, hown, hnr, hup, hown', hi]
